@@ -549,6 +549,14 @@ func (e *Engine) writesThrough(f *types.Func) map[int]bool {
 												changed = true
 											}
 										}
+									} else if _, isSlice := info.TypeOf(a).Underlying().(*types.Slice); isSlice {
+										// copy(p[i:], …): a reslice of the parameter shares its backing array
+										if v, _ := rootVar(info, a); v != nil {
+											if pi, isParam := ps[v]; isParam && !e.wt[u.Obj][pi] {
+												e.wt[u.Obj][pi] = true
+												changed = true
+											}
+										}
 									} else {
 										mark(a)
 									}
